@@ -51,6 +51,7 @@ def p_c11(facts, rep, tier):
         "taken directly on the lookup's result (an overlay delete is final). S2: in SeekRequest::continue_leaves_fetch (reconstruction of an elided "
         "subtree under an overlay chain) every stored leaf is copied into the merged result or superseded by an overlay entry - a forward dataflow "
         "tracks the frontier of handled leaves through the slice copies and cursor steps and requires it to be END on every path to reconstruct_pages. "
+        "S10: UpdatedPages::into_frozen_iter hands on every updated page (element-preserving iterator adapters only). "
         "S9: in SeekRequest::continue_leaf_fetch every path from the beatree iterator's next() to the completed LeafData passes a call that receives both "
         "the request's overlay_deletions and the item and whose result can send the loop back for the next item (inline and overflow items alike). "
         "Behavioural equivalence of overlays with commits is not decided."
@@ -72,6 +73,7 @@ def p_c11(facts, rep, tier):
     nu, ns = shadow.run(facts, rep)
     rep.floor("S1 functions consulting LiveOverlay::value with a store fall-back", nu, 2)
     shadow.s8(facts, rep)
+    shadow.s10(facts, rep)
     shadow.s9(facts, rep)  # undecided shapes are recorded as a note (like S2), the anchor itself is required
     import mergefront
 
@@ -386,6 +388,7 @@ def p_c03(facts, rep, tier):
     syncorder.o14(ctx, rep)
     syncorder.o15(ctx, rep)
     syncorder.o16(ctx, rep)
+    syncorder.o18(ctx, rep)
     # the old state survives a crash before the switch-over only if no page it references is rewritten: the copy-on-write
     # rules of C17 that are about WHICH pages are written are part of C03 as well
     syncorder.w2(ctx, rep)
